@@ -93,10 +93,8 @@ def send_loops(fn):
 
 
 def captured_sender_vec(fn):
-    caps = fn.body.get("captures", [])
-    tys = fn.body.get("upvar_tys", [])
-    out = [c for c, t in zip(caps, tys) if "Sender<" in t["s"] and t["s"].startswith("std::vec::Vec<")]
-    return out
+    """Place steps (below the closure environment) of every captured Vec of Senders."""
+    return [tuple(sl["steps"]) for sl in fn.capture_slots() if "Sender<" in sl["ty"]["s"] and sl["ty"]["s"].startswith("std::vec::Vec<")]
 
 
 @rule("C04.R3", floor=5)
@@ -126,10 +124,10 @@ def c04_r3(ctx):
             s = sends[0]
             # (c) collection: the captured sender vector, no truncating adaptor
             it = lp["iter"]
-            good_iter = all(o[0] == ("param", 1) and o[1] == ("field", vec) and
-                            all(st[0] in ("iter", "adapt") for st in o[2:]) for o in it)
+            good_iter = all(o[0] == ("param", 1) and tuple(o[1:1 + len(vec)]) == vec and
+                            all(st[0] in ("iter", "adapt") for st in o[1 + len(vec):]) for o in it)
             if not good_iter:
-                ctx.viol(key + ("collection",), "send loop does not traverse the whole captured sender vector `%s` (iterates %s)" % (vec, sorted(fmt_origin(o) for o in it)), cl.where(lp["header"]))
+                ctx.viol(key + ("collection",), "send loop does not traverse the whole captured sender vector `%s` (iterates %s)" % (".".join(x[1] for x in vec), sorted(fmt_origin(o) for o in it)), cl.where(lp["header"]))
             # receiver of send is this iteration's element
             so = cl.origins_of_operand(s.args[0])
             elem_ok = all(o[:len(e)] == e for o in so for e in lp["elem"]) and so
@@ -163,7 +161,7 @@ def c04_r3(ctx):
         for (hc, k, pk) in helper_sends(ctx.P, cl):
             ctx.inst("send-all helper call in %s" % cl.id, hc.where)
             ao = cl.origins_of_operand(hc.args[k - 1])
-            if not all(o[0] == ("param", 1) and o[1] == ("field", vec) and len(o) == 2 for o in ao):
+            if not all(o[0] == ("param", 1) and tuple(o[1:]) == vec for o in ao):
                 ctx.viol((cl.id, "helper-other-vector", pk), "a send-all helper is not given the captured sender vector", hc.where)
                 continue
             ok_e = cl.edges_of_call_variant(hc, "Ok")
